@@ -218,7 +218,9 @@ def r5_issuance_confinement(ctx):
         if cb is None:
             r.violation("anchor-missing:" + callee.split("::")[-1], "stage %s not found" % callee)
             continue
-        got = sorted(prog.by_id[c].nname for c in prog.callers_of(cb.id))
+        # callers are compared by the function that owns the call (the call may sit in one of its closures or in its own body)
+        got = sorted({_owner(prog.by_id[c], prog) for c in prog.callers_of(cb.id)})
+        callers = sorted({c.split("::{closure")[0] for c in callers})
         r.check(got == sorted(callers), "callers/" + callee.split("::")[-1], "%s ← %s" % (callee.split("::")[-1], [c.split("::")[-1] for c in callers]),
                 "%s is called from %s (expected only %s): a new route to an issuance stage" % (callee, got, callers))
 
@@ -288,7 +290,7 @@ def r8_subsidy_peg(ctx):
     # schedule: reward = (1<<20) >> ((height − TIP909)/1e6); fee + erg = reward under both TIP-909a settings
     rw = q.var_def_exprs(t, "reward")
     s = sig(rw[0][1]) if len(rw) == 1 else "?"
-    r.check(s == "Shr(1048576, Div(core::num::<impl u64>::saturating_sub($1.height.0, TIP_909_HEIGHT.0), 1000000))", "subsidy/schedule", "reward = 2^20 >> ((height − TIP-909)/10^6)", "reward = %s" % s)
+    r.check(s == "Shr(1048576, Div(core::num::<impl u64>::saturating_sub($1.height.0, TIP_909_HEIGHT), 1000000))", "subsidy/schedule", "reward = 2^20 >> ((height − TIP-909)/10^6)", "reward = %s" % s)
     flag = [e for bi, e in q.call_exprs(t, "UnsealedState::tip_909a")]
     sm = q.call_exprs(t, "PoolState::swap_many")
     r.check(len(sm) == 2, "subsidy/two-injections", "two injections (fee, ERG)", "%d injections" % len(sm))
